@@ -45,7 +45,7 @@ type producerResult struct {
 	Rounds []producerReport `json:"rounds"`
 }
 
-func runProducer(seed int64, n int) producerResult {
+func runProducer(seed int64, n int, receiver bool) producerResult {
 	var out producerResult
 	for i := 0; i < n; i++ {
 		if i%2 == 1 {
@@ -53,7 +53,7 @@ func runProducer(seed int64, n int) producerResult {
 		} else {
 			memkv.SetJitter(0, 0)
 		}
-		rep := producerRound(rand.New(rand.NewSource(seed*9176+int64(i))), i)
+		rep := producerRound(rand.New(rand.NewSource(seed*9176+int64(i))), i, receiver)
 		out.Rounds = append(out.Rounds, rep)
 		if rep.Hung {
 			break
@@ -63,7 +63,7 @@ func runProducer(seed int64, n int) producerResult {
 	return out
 }
 
-func producerRound(rng *rand.Rand, idx int) (rep producerReport) {
+func producerRound(rng *rand.Rand, idx int, receiver bool) (rep producerReport) {
 	rep.Round = idx
 	problem := func(sig, f string, a ...interface{}) {
 		rep.Problems = append(rep.Problems, sig+" ## "+fmt.Sprintf(f, a...))
@@ -130,6 +130,39 @@ func producerRound(rng *rand.Rand, idx int) (rep producerReport) {
 			}
 		}
 	}
+	// receiver mode: the blocks come from a peer (a twin that admits part of the clients' transactions
+	// and some of its own) and reach this node through the engine's real Miner.ProcBlock
+	var peerBlocks []*pb.InternalBlock
+	if receiver {
+		peer, err := n.Twin()
+		if err != nil {
+			problem("harness|setup", "%v", err)
+			return
+		}
+		for i := 0; i < 2+rng.Intn(2); i++ {
+			for _, st := range streams {
+				for _, s := range st {
+					if rng.Intn(3) == 0 {
+						peer.SubmitTx(sn.CloneTx(s.tx))
+					}
+				}
+			}
+			if x, _, _ := t.GenTx(rng, peer); x != nil {
+				peer.SubmitTx(sn.CloneTx(x))
+			}
+			b, err := peer.PackBlock(sn.K(1), int64(2000+10*i))
+			if err == nil {
+				err = peer.ConfirmForMiner(b)
+			}
+			if err != nil {
+				peer.Drop()
+				problem("harness|setup", "peer block: %v", err)
+				return
+			}
+			peerBlocks = append(peerBlocks, sn.WireBlock(b))
+		}
+		peer.Drop()
+	}
 	var wg sync.WaitGroup
 	start := make(chan struct{})
 	var stop int32
@@ -138,11 +171,29 @@ func producerRound(rng *rand.Rand, idx int) (rep producerReport) {
 	note := func(s string) { opsMu.Lock(); ops = append(ops, s); opsMu.Unlock() }
 	// the producer
 	blocks := 2 + rng.Intn(2)
+	if receiver {
+		blocks = len(peerBlocks)
+	}
 	var mined []*pb.InternalBlock
 	wg.Add(1)
 	go func() {
 		defer wg.Done()
 		<-start
+		if receiver {
+			for i, b := range peerBlocks {
+				if err := n.ProcBlock(b); err != nil {
+					problem("receiver|valid-block-refused-under-load", "peer block %d (%d transactions): Miner.ProcBlock failed while submissions were in flight: %v; log %v", i, len(b.Transactions), err, n.Log.Tail(3))
+					return
+				}
+				if string(n.StateTip()) != string(b.Blockid) {
+					problem("receiver|accepted-but-not-applied-under-load", "peer block %d was accepted but the state machine is not on it; log %v", i, n.Log.Tail(3))
+					return
+				}
+				mined = append(mined, b)
+				note(fmt.Sprintf("recv(%dtx)", len(b.Transactions)-1))
+			}
+			return
+		}
 		for i := 0; i < blocks; i++ {
 			b, err := n.PackBlock(sn.K(0), int64(2000+10*i))
 			if err != nil {
@@ -266,6 +317,9 @@ func producerRound(rng *rand.Rand, idx int) (rep producerReport) {
 		}
 	}
 	for id := range ackd {
+		if receiver {
+			break // a peer's block may evict an acknowledged transaction that conflicts with it
+		}
 		if onChain[id] == 0 && !pending[id] {
 			problem("producer|acknowledged-transaction-lost", "transaction %x was acknowledged by SubmitTx and is neither pending nor on the chain after the node's own blocks (nothing can evict a transaction from a node that only adds its own blocks)", id)
 			return
